@@ -15,10 +15,12 @@ metas, clock reading and retention:
   4. after a pass nothing of a victim is left in blob store, local files, in-memory metadata and
      segmeta.json.  The empty-PQ meta files are NOT cleaned (the pass hands DeleteSegmentData metas
      without pqids): counterexample + the statement under the guard that excludes that class;
-  5. the volume pass is meant to delete oldest-first and to stop at the first segment that does not
-     fit.  As written it does neither (the `break` leaves only the `switch`; the metrics sort key is a
-     wrapped uint32 product): counterexamples + the statement under the two guards that exclude exactly
-     these classes; unconditionally it never deletes as much as the excess.
+  5. the volume pass deletes oldest-first and stops at the first segment that does not fit: the marked
+     segments are a prefix of the age-sorted candidates, nothing strictly older than a deleted segment
+     stays, and it never deletes as much as the excess — at full strength, for all inputs (only
+     hypothesis: LatestEpochSec is a uint32).  This was false before two repairs in /repo (the `break`
+     left only the `switch`; the metrics sort key was a wrapped uint32 product): the old behaviour is kept
+     as `volPassOld` with its two counterexample theorems.
 -/
 import SigModel.Model.Retention
 import SigModel.Lemmas.C14
@@ -232,70 +234,41 @@ def OldestFirst (all deleted : List Meta) : Prop :=
   deleted.Pairwise (fun a b => trueTimeMs a ≤ trueTimeMs b) ∧
   ∀ a ∈ deleted, ∀ b ∈ all, trueTimeMs b < trueTimeMs a → b ∈ deleted
 
-/-- C14.5 (defect 1) — false for log segments alone: a 2 GB segment from 2023 does not fit into the 1 GB + 1
-excess, the `break` only leaves the `switch`, and the 1-byte segment from 2026 is deleted instead. -/
-theorem vol_oldest_first_counterexample :
-    ¬ ∀ limitGB counter metrics logs, OldestFirst (metrics ++ logs) (volPass limitGB counter metrics logs) := by
-  intro h
-  have := (h 1 5 [] [{ key := 1, latest := 1700000000000, kind := .log, size := 2000000000 },
-                     { key := 2, latest := 1790000000000, kind := .log, size := 1 }]).2
-  revert this
-  decide
+/-- the sort key of the pass is the segment's true newest-event time (only hypothesis: the field width of
+`LatestEpochSec`, a uint32) -/
+theorem volKey_eq_trueTime (l : List Meta) (hw : WellTyped l) (m : Meta) (hm : m ∈ l) : volKey m = trueTimeMs m :=
+  timeMs_eq_trueTime m (hw m hm)
 
-/-- C14.5 (defect 2) — false even when everything fits the loop's expectations: the sort key of a metrics
-segment is `uint64(LatestEpochSec * 1000)`, a uint32 product, so today's metrics segment sorts before a
-log segment from 2023 and is deleted while the old log segment stays. -/
-theorem vol_oldest_first_counterexample_overflow :
-    ¬ ∀ limitGB counter metrics logs,
-        noLateFit (volExcess limitGB counter (volSystem metrics logs)) (volSort (metrics ++ logs)) = true →
-        OldestFirst (metrics ++ logs) (volPass limitGB counter metrics logs) := by
-  intro h
-  have := (h 0 5 [{ key := 2, latest := 1789990000, kind := .metrics, size := 5 }]
-                 [{ key := 1, latest := 1700000000000, kind := .log, size := 5 }] (by decide)).2
-  revert this
-  decide
-
-/-- guard 1: the uint32 product of every metrics sort key is exact (newest event before 1970-02-19T17:02:47Z) -/
-def KeysExact (l : List Meta) : Prop := ∀ m ∈ l, m.kind = .metrics → m.latest * 1000 < two32
-
-/-- guard 2: in age order, once a segment does not fit into what is left of the excess, no later one fits -/
-def NoLateFit (limitGB counter : Nat) (metrics logs : List Meta) : Prop :=
-  noLateFit (volExcess limitGB counter (volSystem metrics logs)) (volSort (metrics ++ logs)) = true
-
-example : KeysExact [{ key := 1, latest := 1789000000000, kind := .log }, { key := 2, latest := 4000000, kind := .metrics }] := by
-  intro m hm; simp at hm; rcases hm with rfl | rfl <;> intro h <;> first | decide | cases h
-example : NoLateFit 1 5 [] [{ key := 1, latest := 5, kind := .log, size := 1500000000 }, { key := 2, latest := 6, kind := .log, size := 1500000000 }] := by
-  unfold NoLateFit; decide
-
-/-- under guard 1 the sort key of the pass is the segment's true newest-event time -/
-theorem volKey_eq_of_exact (l : List Meta) (hk : KeysExact l) (m : Meta) (hm : m ∈ l) : volKey m = trueTimeMs m := by
-  unfold volKey trueTimeMs
-  cases h : m.kind with
-  | log => rfl
-  | metrics => have := hk m hm h; simp only [wrap32]; exact Nat.mod_eq_of_lt this
-
-/-- C14.5 (partial) — under the two guards the volume pass deletes oldest-first and stops at the first
-segment it does not delete. -/
-theorem vol_oldest_first_partial (limitGB counter : Nat) (metrics logs : List Meta)
-    (hk : KeysExact (metrics ++ logs)) (hn : NoLateFit limitGB counter metrics logs) :
+/-- C14.5 — for EVERY limit, warning counter and set of segments (no guard beyond the uint32 width of
+`LatestEpochSec`): the volume pass marks oldest-first and stops at the first segment it does not mark — no
+segment is deleted while a strictly older one stays.  (False before the two fixes, see the `…_old_…`
+theorems below.) -/
+theorem vol_oldest_first (limitGB counter : Nat) (metrics logs : List Meta) (hw : WellTyped (metrics ++ logs)) :
     OldestFirst (metrics ++ logs) (volPass limitGB counter metrics logs) := by
   unfold volPass
   simp only []
   split
   · exact ⟨List.Pairwise.nil, fun a ha => (by cases ha)⟩
-  · unfold NoLateFit at hn
-    rw [volLoop_eq_stop _ _ hn]
-    have hsorted : (volSort (metrics ++ logs)).Pairwise (fun a b => trueTimeMs a ≤ trueTimeMs b) := by
+  · have hsorted : (volSort (metrics ++ logs)).Pairwise (fun a b => trueTimeMs a ≤ trueTimeMs b) := by
       refine (pairwise_volSort (metrics ++ logs)).imp_of_mem ?_
       intro a b ha hb hab
-      rw [← volKey_eq_of_exact _ hk a ((mem_volSort a _).mp ha), ← volKey_eq_of_exact _ hk b ((mem_volSort b _).mp hb)]
+      rw [← volKey_eq_trueTime _ hw a ((mem_volSort a _).mp ha), ← volKey_eq_trueTime _ hw b ((mem_volSort b _).mp hb)]
       exact hab
-    refine ⟨hsorted.sublist (volLoopStop_sublist _ _), ?_⟩
+    refine ⟨hsorted.sublist (volLoop_sublist _ _), ?_⟩
     intro a ha b hb hlt
-    exact volLoopStop_closed trueTimeMs _ _ hsorted a ha b ((mem_volSort b _).mpr hb) hlt
+    exact volLoop_closed trueTimeMs _ _ hsorted a ha b ((mem_volSort b _).mpr hb) hlt
 
-/-- C14.5 (unconditional) — the pass only marks existing segments and never marks as much as the excess:
-it cannot delete more than asked for (and, the comparison being strict, never quite reaches the limit). -/
+/-- C14.5 — the marked segments are exactly the first n of the age-sorted candidate list, for some n. -/
+theorem vol_deletes_prefix (limitGB counter : Nat) (metrics logs : List Meta) :
+    ∃ n, volPass limitGB counter metrics logs = (volSort (metrics ++ logs)).take n := by
+  unfold volPass
+  simp only []
+  split
+  · exact ⟨0, rfl⟩
+  · exact volLoop_prefix _ _
+
+/-- C14.5 — the pass only marks existing segments and never marks as much as the excess: it cannot delete
+more than asked for (and, the comparison being strict, never quite reaches the limit). -/
 theorem vol_never_overdeletes (limitGB counter : Nat) (metrics logs : List Meta) :
     (∀ a ∈ volPass limitGB counter metrics logs, a ∈ metrics ++ logs) ∧
     (volPass limitGB counter metrics logs = [] ∨
@@ -307,5 +280,33 @@ theorem vol_never_overdeletes (limitGB counter : Nat) (metrics logs : List Meta)
   · rename_i hex
     refine ⟨fun a ha => (mem_volSort a _).mp ((volLoop_sublist _ _).subset ha), Or.inr ?_⟩
     exact volLoop_total_lt _ _ (Nat.pos_of_ne_zero hex)
+
+/-- (record of repaired defect 1) the pass as it was — `break` leaving only the `switch` — was not
+oldest-first even for log segments alone: a 2 GB segment from 2023 does not fit into the 1 GB + 1 excess and
+the 1-byte segment from 2026 was deleted instead.  The repaired pass deletes nothing on that input. -/
+theorem vol_oldest_first_old_counterexample :
+    (¬ ∀ limitGB counter metrics logs, OldestFirst (metrics ++ logs) (volPassOld limitGB counter metrics logs)) ∧
+    volPass 1 5 [] [{ key := 1, latest := 1700000000000, kind := .log, size := 2000000000 },
+                    { key := 2, latest := 1790000000000, kind := .log, size := 1 }] = [] := by
+  refine ⟨?_, by decide⟩
+  intro h
+  have := (h 1 5 [] [{ key := 1, latest := 1700000000000, kind := .log, size := 2000000000 },
+                     { key := 2, latest := 1790000000000, kind := .log, size := 1 }]).2
+  revert this
+  decide
+
+/-- (record of repaired defect 2) the old sort key `uint64(LatestEpochSec * 1000)` was a wrapped uint32
+product: today's metrics segment sorted before a log segment from 2023 and was deleted while the old log
+segment stayed.  The repaired pass deletes the 2023 log segment on that input. -/
+theorem vol_oldest_first_old_counterexample_overflow :
+    (¬ ∀ limitGB counter metrics logs, OldestFirst (metrics ++ logs) (volPassOld limitGB counter metrics logs)) ∧
+    (volPass 0 5 [{ key := 2, latest := 1789990000, kind := .metrics, size := 5 }]
+                 [{ key := 1, latest := 1700000000000, kind := .log, size := 5 }]).map (·.key) = [1] := by
+  refine ⟨?_, by decide⟩
+  intro h
+  have := (h 0 5 [{ key := 2, latest := 1789990000, kind := .metrics, size := 5 }]
+                 [{ key := 1, latest := 1700000000000, kind := .log, size := 5 }]).2
+  revert this
+  decide
 
 end SigModel.Props.C14
